@@ -1,3 +1,5 @@
+import libcst as cst
+
 from codemodder.codemods.libcst_transformer import NewArg
 from core_codemods.api import Metadata, Reference, ReviewGuidance, SimpleCodemod
 
@@ -48,8 +50,18 @@ class UpgradeSSLContextTLS(SimpleCodemod):
         self.remove_unused_import(original_node)
         self.add_needed_import("ssl")
 
-        if len((args := original_node.args)) == 1 and args[0].keyword is None:
-            new_args = [self.make_new_arg(self.SAFE_TLS_PROTOCOL_VERSION)]
+        if (
+            (args := updated_node.args)
+            and args[0].keyword is None
+            and not args[0].star
+        ):
+            # The protocol is the first positional argument: it is replaced where it stands
+            new_args = [
+                args[0].with_changes(
+                    value=cst.parse_expression(self.SAFE_TLS_PROTOCOL_VERSION)
+                ),
+                *args[1:],
+            ]
         else:
             new_args = self.replace_args(
                 updated_node,
